@@ -249,10 +249,18 @@ def baseline_off(repo="/repo"):
     v = b.variant("nohooks")
     tests = sorted(f for f in os.listdir(os.path.join(b.tree, "test")) if f.startswith("suite-") and f.endswith(".janet"))
     failed = []
+    # the suites use fixed TCP ports / unix socket paths: never run two suite runs at once on this machine
+    os.makedirs(SCRATCH, exist_ok=True)
+    suite_lock = open(os.path.join(SCRATCH, ".suite.lock"), "w")
+    fcntl.flock(suite_lock, fcntl.LOCK_EX)
     for t in tests:
         for attempt in range(3):  # timing-sensitive suites (ev, filewatch) can fail under heavy machine load: retry
-            r = subprocess.run([v["janet"], os.path.join("test", t)], cwd=b.tree, stdout=subprocess.PIPE, stderr=subprocess.STDOUT, timeout=900)
-            ok = r.returncode == 0
+            try:
+                r = subprocess.run([v["janet"], os.path.join("test", t)], cwd=b.tree, stdout=subprocess.PIPE, stderr=subprocess.STDOUT, timeout=300)
+                ok = r.returncode == 0
+            except subprocess.TimeoutExpired as e:
+                r = subprocess.CompletedProcess([], 124, stdout=(e.stdout or b"") + b"\nTIMEOUT")
+                ok = False
             if ok:
                 break
         print(("PASS " if ok else "FAIL ") + "janet::test/" + t)
